@@ -136,13 +136,15 @@ def num_token(draw, kind):
 def read_block(draw, spec, last):
     ncol = draw(st.integers(1, 30 if draw(st.integers(0, 6)) == 0 else 6))
     nrow = draw(st.integers(0 if last else 1, 8 if draw(st.integers(0, 9)) else 60))
-    numbered = draw(st.sampled_from(["yes", "no", "mixed", "text"]))
+    numbered = draw(st.sampled_from(["yes", "yes", "no", "mixed", "text", "permuted"]))
     labels, kinds, cols = [], [], []
     for i in range(ncol):
         kind = draw(st.sampled_from(["int", "float", "text", "mixed"]))
         kinds.append(kind)
         if numbered == "yes":
             suf = f" #{i + 1}"
+        elif numbered == "permuted":  # the number is a comment: it may be any number (files edited by hand, columns reordered by other tools)
+            suf = f" #{ncol - i}" if ncol % 2 else f" #{(i + 1) % ncol + 1}"
         elif numbered == "no":
             suf = draw(trail)
         elif numbered == "mixed":
@@ -323,7 +325,18 @@ def run_roundtrip(case, out):
                 d[c["name"]] = pd.Series(c["values"], dtype="float64")
             else:
                 d[c["name"]] = pd.Series(c["values"], dtype=object)
-        frames.append(pd.DataFrame(d, columns=[c["name"] for c in b["cols"]]))
+        fr_ = pd.DataFrame(d, columns=[c["name"] for c in b["cols"]])
+        # row labels carry no meaning for the file: rows are written in their order in the table
+        kind_ = (len(fr_) + len(fr_.columns) + len(frames)) % 4
+        n_ = len(fr_)
+        if kind_ == 1:
+            fr_.index = list(range(n_ - 1, -1, -1))
+        elif kind_ == 2 and n_:
+            fr_.index = [(i + 1) % n_ for i in range(n_)]
+        elif kind_ == 3:
+            k_ = (n_ + 1) // 2
+            fr_.index = list(range(k_)) + list(range(n_ - k_))  # repeated labels, as after pd.concat
+        frames.append(fr_)
     specs = [b["spec"] for b in case["blocks"]]
     has_text = any(c["kind"] in ("text", "mixed") for b in case["blocks"] for c in b["cols"])
     out.label("roundtrip", f"blocks:{len(specs)}", "numbered" if case["number_columns"] else "unnumbered")
